@@ -1,11 +1,166 @@
-import DefconModel.Lemmas.Layer
-namespace DefconModel.Props.C01
-open DefconModel DefconModel.Layer
+/-
+C01 — Save then reopen reproduces the font exactly.
 
-/-- layer-level core: after an in-place save the glyph set holds exactly the abstract content -/
-theorem layer_save_reopen (s : State) (h : Good s) : ∀ k, abs (opened (save s).disk) k = abs s k := by
+A font is, for persistence, the product of independent components, each with its own executable
+model of the code's bookkeeping and its own abstract content `abs`:
+
+  * glyphs of a layer        M-Layer     (`_glyphs`, `_keys`, `_scheduledForDeletion`, dirty flags)
+  * layers of the font       M-LayerSet  (`_layers`, order, default, action history vs. layercontents)
+  * images / data            M-FileSet   (`_data`, `_scheduledForDeletion`, per-file dirty/onDisk)
+  * info, groups, kerning, features, lib   M-Parts (lazy getter, dirty flag)
+
+For each component: after ANY history of operations, a save writes exactly the abstract content,
+so that re-opening the written UFO shows the same content; and a save never fails.
+(Byte-level encoding/decoding of each file is fontTools.ufoLib's and is validated by reading the
+real UFO back, not proved.)
+-/
+import DefconModel.Lemmas.Layer
+import DefconModel.Lemmas.FileSet
+import DefconModel.Lemmas.Parts
+import DefconModel.Lemmas.LayerSet
+
+namespace DefconModel.Props.C01
+open DefconModel
+
+/-! ### glyphs -/
+
+/-- After any history of glyph reads, creations, replacements, insertions, deletions, renames and
+edits on a layer (read or not, on disk or not), an in-place save leaves the glyph set holding
+exactly the layer's abstract content: re-opening it shows the same glyphs. -/
+theorem glyphs_save_reopen (s : Layer.State) (ops : List Layer.Op) (h : Layer.Good s)
+    (hops : Layer.OpsOK (Layer.abs s) ops) :
+    ∀ k, Layer.abs (Layer.opened (Layer.save (Layer.run s ops)).disk) k = Layer.abs (Layer.run s ops) k := by
   intro k
-  simp only [abs, opened, AL.get?_nil, List.not_mem_nil, if_false]
-  exact save_disk h.wf k
+  have hg := (Layer.run_refines s ops h hops).1
+  simp only [Layer.abs, Layer.opened, AL.get?_nil, List.not_mem_nil, if_false]
+  exact Layer.save_disk hg.wf k
+
+/-- … and the save does not change what the in-memory layer shows. -/
+theorem glyphs_memory_unchanged_by_save (s : Layer.State) (h : Layer.Good s) :
+    ∀ k, Layer.abs (Layer.save s) k = Layer.abs s k := Layer.abs_save h.wf
+
+/-! ### images and data files -/
+
+/-- After any history of reads, assignments, deletions and earlier saves on an image/data set
+opened on a directory, an in-place save leaves the directory holding exactly the abstract content
+(deleted files gone, re-added files present, unread files untouched). `se` selects the class:
+ImageSet ignores an assignment of identical bytes, DataSet does not. -/
+theorem files_save_in_place_reopen (se : Bool) (disk : List (String × FileSet.Blob)) (hk : (AL.keys disk).Nodup)
+    (ops : List FileSet.Op) (k : String) :
+    AL.get? (FileSet.saveInPlace (FileSet.run se (FileSet.opened disk) ops)).disk k =
+      FileSet.abs (FileSet.run se (FileSet.opened disk) ops) k :=
+  FileSet.saveInPlace_disk (FileSet.wf_run (FileSet.wf_opened disk hk) ops) k
+
+/-- Save-as to a new location: files never read are copied, files read are written whether
+modified or not (the F18 fix), files deleted are absent. -/
+theorem files_save_as_reopen (se : Bool) (disk : List (String × FileSet.Blob)) (hk : (AL.keys disk).Nodup)
+    (ops : List FileSet.Op) (k : String) :
+    AL.get? (FileSet.saveAs (FileSet.run se (FileSet.opened disk) ops) []).disk k =
+      FileSet.abs (FileSet.run se (FileSet.opened disk) ops) k :=
+  FileSet.saveAs_disk (FileSet.wf_run (FileSet.wf_opened disk hk) ops) k
+
+/-- the same for a set built purely in memory (new font): start from the empty set -/
+theorem files_new_font_save_as (se : Bool) (ops : List FileSet.Op) (k : String) :
+    AL.get? (FileSet.saveAs (FileSet.run se (FileSet.opened []) ops) []).disk k =
+      FileSet.abs (FileSet.run se (FileSet.opened []) ops) k :=
+  files_save_as_reopen se [] (by simp [AL.keys]) ops k
+
+/-- a save does not change what the in-memory set shows -/
+theorem files_memory_unchanged_by_save (s : FileSet.State) (h : FileSet.WF s) (k : String) :
+    FileSet.abs (FileSet.saveInPlace s) k = FileSet.abs s k :=
+  FileSet.abs_save h false _ (FileSet.saveInPlace_disk h) k
+
+/-- each operation's effect on the abstract content -/
+theorem files_get_invisible (s s' : FileSet.State) (n : String) (b : FileSet.Blob) (h : FileSet.WF s)
+    (hg : FileSet.getItem s n = .ok (s', b)) : (∀ k, FileSet.abs s' k = FileSet.abs s k) ∧ FileSet.abs s n = some b :=
+  let ⟨_, a, c, _⟩ := FileSet.getItem_spec h hg; ⟨a, c⟩
+
+theorem files_set_exact (se : Bool) (s s' : FileSet.State) (n : String) (b : FileSet.Blob) (h : FileSet.WF s)
+    (hs : FileSet.setItem se s n b = .ok s') : ∀ k, FileSet.abs s' k = FileSet.upd (FileSet.abs s) n (some b) k :=
+  (FileSet.setItem_spec h hs).2
+
+theorem files_del_exact (s s' : FileSet.State) (n : String) (h : FileSet.WF s)
+    (hs : FileSet.delItem s n = .ok s') : ∀ k, FileSet.abs s' k = FileSet.upd (FileSet.abs s) n none k :=
+  (FileSet.delItem_spec h hs).2.1
+
+/-! ### info, groups, kerning, features, lib -/
+
+/-- A part that is always written (info, groups, lib): afterwards its file holds the content,
+whether the part had been read, left unread or modified; the content is unchanged. -/
+theorem part_saved_always (p : Parts.Part) (h : Parts.WF p) :
+    (Parts.saveAlways p).disk = Parts.abs p ∧ Parts.abs (Parts.saveAlways p) = Parts.abs p :=
+  let ⟨_, a, b, _⟩ := Parts.saveAlways_spec p h; ⟨b, a⟩
+
+/-- A part written only when dirty or on save-as (kerning, features): the same conclusion. -/
+theorem part_saved_if_dirty (sa : Bool) (p : Parts.Part) (h : Parts.WF p) :
+    (Parts.saveIfDirty sa p).disk = Parts.abs p ∧ Parts.abs (Parts.saveIfDirty sa p) = Parts.abs p :=
+  let ⟨_, a, b, _⟩ := Parts.saveIfDirty_spec sa p h; ⟨b, a⟩
+
+/-- assignment and lazy read keep the part well formed (so the two theorems apply after any history) -/
+theorem part_wf_preserved (p : Parts.Part) (b : Parts.Blob) (h : Parts.WF p) :
+    Parts.WF (Parts.get p).1 ∧ Parts.WF (Parts.set p b) ∧ Parts.abs (Parts.set p b) = b ∧
+    Parts.abs (Parts.get p).1 = Parts.abs p :=
+  ⟨(Parts.get_spec p h).1, (Parts.set_spec p b h).1, (Parts.set_spec p b h).2, (Parts.get_spec p h).2.1⟩
+
+/-! ### layers -/
+
+/-- After ANY history of layer creation, deletion, renaming, reordering, default changes and
+earlier saves on a layer set loaded from a UFO, the in-place save SUCCEEDS (the replayed action
+history never makes ufoLib refuse, and never merges two glyph directories) and writes a
+layercontents that lists exactly the memory layers, in layer order, each mapped to the directory
+of its own layer object, the default layer — and only it — to the default directory. -/
+theorem layers_save_in_place (ls : List (String × Nat)) (defLid : Nat) (defName : String)
+    (hn : (AL.keys ls).Nodup) (hl : (ls.map Prod.snd).Nodup) (hd : AL.get? ls defName = some defLid)
+    (hf : ∀ p ∈ ls, p.2 < ls.length) (ops : List LayerSet.Op)
+    (hops : LayerSet.OpsOK (LayerSet.opened ls defLid defName) ops) :
+    let s := LayerSet.run (LayerSet.opened ls defLid defName) ops
+    ∃ s', LayerSet.saveInPlace s = .ok s' ∧ (∀ n, AL.get? s'.disk n = LayerSet.expectedEntry s n) ∧
+      AL.keys s'.disk = s.order := by
+  intro s
+  have hinv0 : LayerSet.Inv (LayerSet.opened ls defLid defName) := by
+    obtain ⟨h1, h2⟩ := LayerSet.opened_good ls defLid defName hn hl hd
+    refine ⟨h1, h2, ?_⟩
+    intro n l hget
+    have : AL.get? (LayerSet.opened ls defLid defName).layers n = (AL.get? ls n).map (fun i => (⟨i, true⟩ : LayerSet.MLayer)) :=
+      LayerSet.get?_map_pair (fun i => (⟨i, true⟩ : LayerSet.MLayer)) ls n
+    rw [this] at hget
+    cases hg : AL.get? ls n with
+    | none => simp [hg] at hget
+    | some i =>
+      simp [hg] at hget; subst hget
+      exact hf (n, i) (AL.mem_of_get? hg)
+  have hinv := LayerSet.inv_run hinv0 ops hops
+  obtain ⟨s', h1, h2, h3, _⟩ := LayerSet.saveInPlace_spec hinv.mem hinv.sync
+  exact ⟨s', h1, h2, h3⟩
+
+/-- Save-as needs no history at all: from any consistent layer set it writes the same. -/
+theorem layers_save_as (s : LayerSet.State) (h : LayerSet.MemOK s) :
+    ∃ s', LayerSet.saveAs s = .ok s' ∧ (∀ n, AL.get? s'.disk n = LayerSet.expectedEntry s n) ∧
+      AL.keys s'.disk = s.order :=
+  let ⟨s', a, b, c, _⟩ := LayerSet.saveAs_spec h; ⟨s', a, b, c⟩
+
+/-- The invariant behind it holds in every reachable state (any interleaving with saves). -/
+theorem layers_invariant_reachable (s : LayerSet.State) (h : LayerSet.Inv s) (ops : List LayerSet.Op)
+    (hops : LayerSet.OpsOK s ops) : LayerSet.Inv (LayerSet.run s ops) := LayerSet.inv_run h ops hops
+
+/-! ### non-vacuity, and the bug this proof found -/
+
+open LayerSet in
+/-- F35 (repaired): rename a layer, then make it the default, then save in place. With the
+default flag decided by the *current* default's name the replay moved the renamed directory onto
+the still existing default directory (`Err.merged`); with the flag travelling with the directory
+the save succeeds and writes what memory holds. -/
+example :
+    (run (opened [("A", 0), ("C", 1)] 0 "A") [.rename "C" "D", .setDefault "D", .saveInPlace]).disk
+      = [("A", ⟨0, false⟩), ("D", ⟨1, true⟩)] := by decide
+
+open LayerSet in
+example : OpsOK (opened [("A", 0), ("C", 1)] 0 "A")
+    [.rename "C" "D", .setDefault "D", .newLayer "C", .delLayer "A", .setOrder ["C", "D"], .saveInPlace] := by
+  decide
+
+open FileSet in
+example : (run false (opened [("a", 1), ("d/b", 2)]) [.get "a", .del "d/b", .set "c" 3, .set "d/b" 4, .del "c", .saveAsNew]).disk
+    = [("a", 1), ("d/b", 4)] := by decide
 
 end DefconModel.Props.C01
